@@ -69,7 +69,7 @@ class C12Machine(RuleBasedStateMachine):
         self.ex.fd_pread(fd, lens, offset)
 
     @rule(fd=fds, offset=st.one_of(st.integers(-50, 300), st.sampled_from([0, -1, 1 << 31, 1 << 32, (1 << 32) + 7, -(1 << 40), 1 << 62])),
-          whence=st.sampled_from([0, 1, 2, 0, 1, 2, 3, 255]), unstable=st.booleans())
+          whence=st.sampled_from([0, 1, 2, 0, 1, 2, 3, 255, 256, 257, 0x10002, 0x80000000, 0xffffff00, 0xffffffff]), unstable=st.booleans())
     def fd_seek(self, fd, offset, whence, unstable):
         self.ex.fd_seek(fd, offset & 0xffffffffffffffff, whence, unstable)
 
